@@ -78,8 +78,13 @@ def generate(rng, tier):
         mprog = mt.make_program(rng, arch, 4)
         mm_lo = 0x500000
         mt.module_macho(s, "MM", mprog, mm_lo, 0x100000000, rng)
+        # an image of 8 GiB: 4 GiB and more above its base nothing can be looked up (32-bit relative addresses), so
+        # addresses there have no usable unwind information although the first 4 GiB repeat below them
+        far_lo = 0x1000000000
+        fd = [dict(start=0x100, len=0x400, rows=[(0, suites.std_row(arch, "frameless", 5))])]
+        s.module_dwarf("MF", far_lo, far_lo + (1 << 33), far_lo, 0, ["hdr", "eh", "debug"][rep % 3], fd, rng)
         s.add("new U")
-        for mid in ["MN", "MP", "MM"] + ["MB%d" % i for i in range(mi)] + ["MG%d" % j for j in range(3)]:
+        for mid in ["MN", "MP", "MM", "MF"] + ["MB%d" % i for i in range(mi)] + ["MG%d" % j for j in range(3)]:
             s.add("add U " + mid)
         probes = [("nomodule", a) for a in (0x5000, 0x50, 0xfffff, 0x101000, 0x9999999)]
         probes += [("nodata", 0x100000 + rng.below(0x1000)) for _ in range(3)]
@@ -97,6 +102,7 @@ def generate(rng, tier):
         # have said about it: images with data, with nothing mapped behind them
         probes += [("nomodule", 0x300000 + 0x10000 * j + 0x1000) for j in range(3)]
         probes += [("nomodule", pe_lo + 0x10000), ("nomodule", mm_lo + mprog["end"] + 0x100)]
+        probes += [("toofar", far_lo + (1 << 32) + a) for a in (0x100, 0x180, 0x4ff, (1 << 32) - 0x1000 + 0x100)]
         for reason, a in probes:
             for first in (1, 0):
                 for _ in range(2):
